@@ -822,7 +822,13 @@ where
                     Ok(Some(Ev::Scalar { value, style, .. }))
                         if scalar_is_nullish(value, style) =>
                     {
-                        let _ = self.src.next();
+                        // Skip the null-like document, but never drop an error (e.g. a
+                        // deferred reader failure) that surfaces while doing so.
+                        if let Err(e) = self.src.next() {
+                            self.finished = true;
+                            let _ = self.src.finish();
+                            return Some(Err(e));
+                        }
                         continue;
                     }
                     Ok(Some(_)) => {
@@ -1199,7 +1205,13 @@ where
                     Ok(Some(Ev::Scalar { value, style, .. }))
                         if scalar_is_nullish(value, style) =>
                     {
-                        let _ = self.src.next();
+                        // Skip the null-like document, but never drop an error (e.g. a
+                        // deferred reader failure) that surfaces while doing so.
+                        if let Err(e) = self.src.next() {
+                            self.finished = true;
+                            let _ = self.src.finish();
+                            return Some(Err(e));
+                        }
                         continue;
                     }
                     Ok(Some(_)) => {
@@ -1927,7 +1939,13 @@ where
                     Ok(Some(Ev::Scalar { value, style, .. }))
                         if scalar_is_nullish(value, style) =>
                     {
-                        let _ = self.src.next();
+                        // Skip the null-like document, but never drop an error (e.g. a
+                        // deferred reader failure) that surfaces while doing so.
+                        if let Err(e) = self.src.next() {
+                            self.finished = true;
+                            let _ = self.src.finish();
+                            return Some(Err(e));
+                        }
                         continue;
                     }
                     Ok(Some(_)) => {
